@@ -1181,6 +1181,14 @@ def r_rebuild(repo, tier):
                         if S and src.get(x.targets[0].id) != S:
                             src[x.targets[0].id] = S
                             changed = True
+                    # elements iterated out of the address (for a in self.a.base.l: mem(a, ...))
+                    gens = [(x.target, x.iter)] if isinstance(x, ast.For) else [(g.target, g.iter) for g in getattr(x, "generators", [])]
+                    for tg, it in gens:
+                        if isinstance(tg, ast.Name):
+                            S = _mem_source(it, src)
+                            if S and src.get(tg.id) != S:
+                                src[tg.id] = S
+                                changed = True
             for c in calls:
                 if not c.args:
                     continue
@@ -1213,3 +1221,146 @@ def _mem_source(e, src):
         if isinstance(x, ast.Name) and x.id in src:
             return src[x.id]
     return None
+
+
+# ======================================================================================= part keys and part widths agree
+def _linform(e, subst):
+    """integer-linear form of an index expression: {atom text: coefficient, 1: constant}; None if not linear"""
+    if isinstance(e, ast.Constant) and isinstance(e.value, int) and not isinstance(e.value, bool):
+        return {1: e.value}
+    if isinstance(e, ast.BinOp) and isinstance(e.op, (ast.Add, ast.Sub)):
+        a, b = _linform(e.left, subst), _linform(e.right, subst)
+        if a is None or b is None:
+            return None
+        sgn = 1 if isinstance(e.op, ast.Add) else -1
+        r = dict(a)
+        for k, v in b.items():
+            r[k] = r.get(k, 0) + sgn * v
+        return {k: v for k, v in r.items() if v}
+    if isinstance(e, ast.UnaryOp) and isinstance(e.op, ast.USub):
+        a = _linform(e.operand, subst)
+        return None if a is None else {k: -v for k, v in a.items()}
+    if isinstance(e, (ast.Name, ast.Attribute, ast.Subscript)):
+        t = norm(e)
+        if t in subst:
+            return dict(subst[t])
+        if any(isinstance(x, ast.Call) for x in ast.walk(e)):
+            return None
+        return {t: 1}
+    return None
+
+
+def _expand(form, subst, depth=0):
+    """apply the substitution to the atoms of a linear form until nothing changes"""
+    if form is None or depth > 6:
+        return form
+    r = {}
+    again = False
+    for k, v in form.items():
+        if k != 1 and k in subst:
+            again = True
+            for k2, v2 in subst[k].items():
+                r[k2] = r.get(k2, 0) + v * v2
+        else:
+            r[k] = r.get(k, 0) + v
+    r = {k: v for k, v in r.items() if v}
+    return _expand(r, subst, depth + 1) if again else r
+
+
+def _guards_to(fnode, target):
+    """tests (expr, polarity) of the If statements enclosing `target` in fnode"""
+    def rec(stmts, acc):
+        for s in stmts:
+            if s is target:
+                return acc
+            if isinstance(s, ast.If):
+                for blk, pol in ((s.body, True), (s.orelse, False)):
+                    r = rec(blk, acc + [(s.test, pol)])
+                    if r is not None:
+                        return r
+            else:
+                for blk in (getattr(s, "body", []), getattr(s, "orelse", []), getattr(s, "finalbody", [])):
+                    if isinstance(blk, list):
+                        r = rec(blk, acc)
+                        if r is not None:
+                            return r
+                for h in getattr(s, "handlers", []):
+                    r = rec(h.body, acc)
+                    if r is not None:
+                        return r
+        return None
+
+    return rec(fnode.body, []) or []
+
+
+def r_span(repo, tier):
+    out = RuleOut(
+        "R-SPAN",
+        "class comp: a part stored under the key (lo, hi) is hi-lo bits wide.  For every store `<c>.parts[(lo, hi)] = V` where V is "
+        "top(n), cst(x, n) or a slice W[a:b], the integer-linear form of n (resp. b-a) equals hi-lo, using the class invariant "
+        "`P = parts[K]  =>  P.size == K[1]-K[0]` and the equalities tested by the enclosing if statements; the matching "
+        "`smask[lo:hi] = [(lo, hi)] * n` updates use the same bounds and n == hi-lo.  Other stored values are not decided here",
+    )
+    c = repo.mod(EXPR).classes.get("comp")
+    if c is None:
+        raise AnalysisError("class comp vanished")
+    nst = 0
+    for f in c.methods.values():
+        fn = f.node
+        # P = <x>.parts[K]  ->  P.size == K[1]-K[0]
+        subst0 = {}
+        for x in _walk_no_nested(fn):
+            if isinstance(x, ast.Assign) and isinstance(x.targets[0], ast.Name) and isinstance(x.value, ast.Subscript) and norm(x.value.value).endswith(".parts") and isinstance(x.value.slice, ast.Name):
+                k = x.value.slice.id
+                subst0["%s.size" % x.targets[0].id] = {"%s[1]" % k: 1, "%s[0]" % k: -1}
+            # for K, P in <x>.parts.items()
+            if isinstance(x, ast.For) and isinstance(x.target, ast.Tuple) and len(x.target.elts) == 2 and norm(x.iter).endswith(".parts.items()") and all(isinstance(e, ast.Name) for e in x.target.elts):
+                k, p = x.target.elts[0].id, x.target.elts[1].id
+                subst0["%s.size" % p] = {"%s[1]" % k: 1, "%s[0]" % k: -1}
+        for x in _walk_no_nested(fn):
+            if not isinstance(x, ast.Assign) or len(x.targets) != 1:
+                continue
+            t = x.targets[0]
+            if not isinstance(t, ast.Subscript):
+                continue
+            base = norm(t.value)
+            subst = dict(subst0)
+            for test, pol in _guards_to(fn, x):
+                for cj in (test.values if isinstance(test, ast.BoolOp) and isinstance(test.op, ast.And) else [test]):
+                    if pol and isinstance(cj, ast.Compare) and len(cj.ops) == 1 and isinstance(cj.ops[0], ast.Eq):
+                        a, b = _linform(cj.left, subst), _linform(cj.comparators[0], subst)
+                        if a and b and len(a) == 1 and list(a.values()) == [1] and 1 not in a:
+                            subst[list(a)[0]] = b
+            if base.endswith(".parts") and isinstance(t.slice, ast.Tuple) and len(t.slice.elts) == 2:
+                lo, hi = t.slice.elts
+                span = _expand(_linform(ast.BinOp(left=hi, op=ast.Sub(), right=lo), subst), subst)
+                v = x.value
+                width = None
+                kind = None
+                if isinstance(v, ast.Call) and isinstance(v.func, ast.Name) and v.func.id == "top" and v.args:
+                    width, kind = _expand(_linform(v.args[0], subst), subst), "top(n)"
+                elif isinstance(v, ast.Call) and isinstance(v.func, ast.Name) and v.func.id == "cst" and len(v.args) >= 2:
+                    width, kind = _expand(_linform(v.args[1], subst), subst), "cst(x, n)"
+                elif isinstance(v, ast.Subscript) and isinstance(v.slice, ast.Slice) and v.slice.lower is not None and v.slice.upper is not None and v.slice.step is None:
+                    width, kind = _expand(_linform(ast.BinOp(left=v.slice.upper, op=ast.Sub(), right=v.slice.lower), subst), subst), "slice"
+                nst += 1
+                decided = kind is not None and width is not None and span is not None
+                out.inst("%s::%s" % (f.key, norm(x)[:80]), {"store": norm(x)[:90], "value_kind": kind, "key_span": span if span is None else {str(k): v for k, v in span.items()}, "decided": decided}, nontrivial=decided)
+                if decided and width != span:
+                    out.report(EXPR, f.dqual, norm(x)[:90], x.lineno, "the part stored under key (%s, %s) is %s bits wide, the key spans %s bits: the comp's parts no longer tile its width" % (norm(lo), norm(hi), norm(v.args[0] if kind == "top(n)" else v.args[1] if kind == "cst(x, n)" else v.slice), norm(ast.BinOp(left=hi, op=ast.Sub(), right=lo))))
+            elif base.endswith(".smask") and isinstance(t.slice, ast.Slice) and t.slice.lower is not None and t.slice.upper is not None:
+                v = x.value
+                if isinstance(v, ast.BinOp) and isinstance(v.op, ast.Mult) and isinstance(v.left, ast.List) and len(v.left.elts) == 1 and isinstance(v.left.elts[0], ast.Tuple) and len(v.left.elts[0].elts) == 2:
+                    klo, khi = v.left.elts[0].elts
+                    span = _expand(_linform(ast.BinOp(left=t.slice.upper, op=ast.Sub(), right=t.slice.lower), subst), subst)
+                    kspan = _expand(_linform(ast.BinOp(left=khi, op=ast.Sub(), right=klo), subst), subst)
+                    cnt = _expand(_linform(v.right, subst), subst)
+                    same_bounds = _linform(klo, subst) == _linform(t.slice.lower, subst) and _linform(khi, subst) == _linform(t.slice.upper, subst)
+                    nst += 1
+                    out.inst("%s::%s" % (f.key, norm(x)[:80]), {"smask_update": norm(x)[:90], "same_bounds": same_bounds})
+                    if span is not None and cnt is not None and (cnt != span or not same_bounds or kspan != span):
+                        out.report(EXPR, f.dqual, norm(x)[:90], x.lineno, "the slice mask update does not cover exactly the bits of the key it records (slice %s:%s, key (%s, %s), count %s)" % (norm(t.slice.lower), norm(t.slice.upper), norm(klo), norm(khi), norm(v.right)))
+    out.stats["stores"] = nst
+    if nst < 6:
+        raise AnalysisError("R-SPAN: only %d part/smask stores found in class comp" % nst)
+    return out
